@@ -25,7 +25,7 @@ REQUIRED_MONITORS = ["segment-times-matrix", "segment-imul", "composition", "pat
 
 T17 = [i / 16.0 for i in range(17)]
 T5 = [0.0, 0.25, 0.5, 0.75, 1.0]
-MCLASSES = ["identity", "translate", "rotate", "uniform", "reflect", "aniso", "rot-aniso", "shear", "general", "general-neg"]
+MCLASSES = ["identity", "translate", "rotate", "uniform", "reflect", "aniso", "rot-aniso", "aniso-rot", "shear", "general", "general-neg"]
 
 
 def strata_minimum(tier):
@@ -116,14 +116,14 @@ def _axes_skewed(S, seg, m):
     return abs(u[0] * v[0] + u[1] * v[1]) > 1e-9 * nu * nv
 
 
-def compare(S, ctx, new, old_pts, m, kind, what, monitor, mclass, skewed=False, extra_cond=1.0):
+def compare(S, ctx, new, old_pts, m, kind, what, monitor, mclass, skewed=False, extra_cond=1.0, S_floor=0.0):
     """new segment's points vs m applied to the original's points"""
     exp = [m_apply(m, p) for p in old_pts]
     got = _pts(new, S, T17 if len(old_pts) >= 17 else T5)
     if len(got) != len(exp):
         ctx.violation("%s/%s/shape-of-result" % (monitor, kind), "%s: %d points vs %d" % (what, len(got), len(exp)), monitor=monitor)
         return False
-    S_ = max([1e-3] + [abs(v) for p in exp + old_pts for v in p] + [abs(m[4]), abs(m[5])])
+    S_ = max([1e-3, S_floor] + [abs(v) for p in exp + old_pts for v in p] + [abs(m[4]), abs(m[5])])
     size = max([math.hypot(p[0] - exp[0][0], p[1] - exp[0][1]) for p in exp] + [0.0])
     k = m_cond(m) * extra_cond
     bound = 4 * b_affine(S_, k) + (2e-9 * size * max(1.0, k / 10) if kind == "Arc" else 0.0)
@@ -314,6 +314,7 @@ def _run_shape(S, case, ctx, M):
     except Exception as e:
         ctx.violation("shape-times-matrix/raises/%s/%s" % (type(e).__name__, spec["kind"]), "%s with Matrix%s: %r" % (what, M, e), monitor="shape-times-matrix")
         return
+    whole = max([1e-3] + [abs(v) for old in olds for q in old for v in m_apply(total, q)] + [abs(v) for old in olds for q in old for v in q])
     for name, segs in forms:
         ctx.mon("shape-times-matrix")
         if len(segs) != len(olds):
@@ -338,6 +339,6 @@ def _run_shape(S, case, ctx, M):
                     name, what, M, i, got[2], exp[2]), monitor="shape-times-matrix")
                 return
             ok = compare(S, ctx, seg, old, total, kind, "%s of %s with Matrix%s, segment %d" % (name, what, M, i),
-                         "shape-times-matrix:%s:%s" % (spec["kind"] if kind == "Arc" else "straight", route), case["mclass"], skews[i])
+                         "shape-times-matrix:%s:%s" % (spec["kind"] if kind == "Arc" else "straight", route), case["mclass"], skews[i], 1.0, whole)
             if not ok:
                 return
